@@ -34,7 +34,8 @@ fn gen_text(r: &Rng, shift: i64) -> String {
         shift,
         near_object_points: true,
         scramble: false,
-        max_objects: 12,
+        // occasionally long maps: sorting behaviour changes with the number of objects
+        max_objects: if r.chance(1, 6) { 45 } else { 12 },
         max_tp: 8,
         all_keys: r.chance(1, 2),
         ..osu::Cfg::default()
